@@ -9,7 +9,7 @@ VERIF = os.path.dirname(os.path.dirname(os.path.abspath(__file__)))
 
 def finish(prop, tier, seed, results, wall, write=True):
     tot = dict(paths=0, paths_nontrivial=0, obligations=0, discharged=0, trivial=0, queries=0, solver_s=0.0,
-               normalised_identities=0, exact_identities=0)
+               normalised_identities=0, exact_identities=0, cvc5_checked=0, cvc5_agree=0, cvc5_unknown=0)
     viol, known, herr, inconc, aborted = [], [], [], [], []
     functions, stubs, outside, samples = set(), [], [], []
     canaries = caught = 0
@@ -93,6 +93,10 @@ def finish(prop, tier, seed, results, wall, write=True):
                                               r["exhaustive"] for r in results},
                 queries=tot["queries"], solver_s=round(tot["solver_s"], 2),
                 solver="z3 " + z3.get_version_string(),
+                second_solver=dict(name="cvc5 (binary on PATH)", queries_rechecked=tot["cvc5_checked"],
+                                   agree=tot["cvc5_agree"], unknown_or_timeout=tot["cvc5_unknown"],
+                                   note="thorough tier only: a sample of the unsat verdicts is exported as SMT-LIB2 "
+                                        "and re-decided by cvc5; a 'sat' answer is a harness error"),
                 canaries=canaries, canaries_caught=caught,
                 selftest_vectors=st_vectors, selftest_values_compared=st_compared,
                 functions_encoded=sorted(functions), stubs=stubs, outside_claim=outside,
